@@ -1,6 +1,7 @@
 package internal
 
 import (
+	"bytes"
 	"encoding/xml"
 	"errors"
 	"fmt"
@@ -44,9 +45,34 @@ func DecodeXMLRequest(r *http.Request, v interface{}) error {
 	return nil
 }
 
+// IsRequestBodyEmpty reports whether the request body holds no bytes at all,
+// however the body is framed (known or unknown length) and however its reader
+// delivers it. A byte read to find out is put back in front of the body.
 func IsRequestBodyEmpty(r *http.Request) bool {
-	_, err := r.Body.Read(nil)
-	return err == io.EOF
+	if r.Body == nil || r.Body == http.NoBody {
+		return true
+	}
+	var b [1]byte
+	// a reader may return (0, nil) a few times before it delivers
+	for i := 0; i < 100; i++ {
+		n, err := r.Body.Read(b[:])
+		if n > 0 {
+			r.Body = &peekedBody{
+				Reader: io.MultiReader(bytes.NewReader([]byte{b[0]}), r.Body),
+				Closer: r.Body,
+			}
+			return false
+		}
+		if err != nil {
+			return err == io.EOF
+		}
+	}
+	return false
+}
+
+type peekedBody struct {
+	io.Reader
+	io.Closer
 }
 
 func ServeXML(w http.ResponseWriter) *xml.Encoder {
